@@ -15,6 +15,9 @@ PLAN = {
     "C01": {"level": "model_checking", "campaigns": [camp("c01", C.camp_c01)]},
     "C02": {"level": "model_checking", "campaigns": [camp("c02", C.camp_c02)]},
     "C03": {"level": "model_checking", "campaigns": [camp("c03", C.camp_c03)]},
+    "C04": {"level": "exploration", "campaigns": [camp("c04", C.camp_c04, QC)],
+            "assumptions": ["allocator-level memory safety (provenance, alignment of from_raw_parts, reads inside an allocation but outside the intended object) is not observable by this technique; covered are panics, aborts, crashes, arithmetic overflow in the checked build, and every data-dependent unchecked index through the cfg(qwt_verif) monitor",
+                            "the two documented panics that need 2^43 symbols or allocation failure are not exercised"]},
     "C05": {"level": "model_checking", "campaigns": [camp("c05", C.camp_c05)]},
     "C06": {"level": "model_checking", "campaigns": [camp("c06", C.camp_c06)]},
     "C07": {"level": "model_checking", "campaigns": [camp("c07", C.camp_c07)]},
@@ -60,6 +63,13 @@ TEXTS.update({
     "C13": _t("QVectorBuilder push/extend histories and collection from all twelve integer types with negative and large values; TLC computes v mod 4 in two's complement from the logged values.", _TV),
     "C19": _t("Every construction path, clone, rebuild-from-iterator and wider carrier type of the same input must answer identically and (non-Huffman) compare equal; one-element edits must compare unequal.", _TV),
 })
+for _p in list(NOT_APPLICABLE):
+    if _p in PLAN:
+        del NOT_APPLICABLE[_p]
+
+TEXTS["C04"] = _t("Total-argument campaign: every kind, every way of obtaining a value (constructors, Default, Clone, serde round trip, rebuilt from its iterator, conversions) and every safe method with arguments from the whole domain (0, boundaries +-1, eight huge tokens up to usize::MAX, symbols 4..=255 on quad structures, symbols far above max), in the optimized build and in the build with debug assertions and overflow checks; TLC rejects any panic, crash or hang outside the documented-panic clauses, any Some for an invalid argument, and any out-of-range index reported by the unchecked-index monitor.",
+                   _TV + "; whole-domain argument enumeration in two build profiles; cfg(qwt_verif) unchecked-index monitor",
+                   "Exploration level: the argument families are enumerated per kind but inputs are sampled. Not observable: allocator-level UB without a crash, reads inside an allocation but outside the intended field. Trusted: TLC, harness rendering, the index monitor's site list (DESIGN.md Appendix C).")
 for _p in list(NOT_APPLICABLE):
     if _p in PLAN:
         del NOT_APPLICABLE[_p]
